@@ -66,8 +66,8 @@ pub struct Entry {
 #[derive(Default)]
 pub struct LogState {
     pub entries: Vec<Entry>,
-    /// invocation counters per evaluation: (function, argument, count)
-    counts: std::collections::HashMap<u64, Vec<(&'static str, Value, usize)>>,
+    /// invocation counters per evaluation: (function, argument, count), bucketed by a hash of the rendering (equality is still `same`)
+    counts: std::collections::HashMap<u64, std::collections::HashMap<u64, Vec<(&'static str, Value, usize)>>>,
 }
 
 #[derive(Default)]
@@ -126,7 +126,7 @@ impl UserFunction for TFn {
         let outcome = {
             let mut s = self.log.state.lock().unwrap();
             let name = self.desc.name;
-            let per_eval = s.counts.entry(eval).or_default();
+            let per_eval = s.counts.entry(eval).or_default().entry(bucket(name, &param)).or_default();
             let j = match per_eval.iter_mut().find(|(n, a, _)| *n == name && same(a, &param)) {
                 Some(c) => {
                     c.2 += 1;
@@ -195,14 +195,19 @@ impl UserFunction for DefaultCacheable {
 
 /// Model of one *ruleset evaluation*: predicts which calls reach the function (invocations) and
 /// what every call returns, given the function descriptions and the fault plan.
+/// bucket of a (function, argument) pair: only an index, equality is decided by `same`
+pub fn bucket(name: &str, arg: &Value) -> u64 {
+    crate::rng::fnv(format!("{name}|{arg:?}").as_bytes())
+}
+
 pub struct ModelHost<'a> {
     pub fns: &'a [FnDesc],
     pub symbols: &'a BTreeMap<String, Value>,
     pub plan: &'a FaultPlan,
-    cache: Vec<(&'static str, Value, Value)>,
+    cache: std::collections::HashMap<u64, Vec<(&'static str, Value, Value)>>,
     /// set when a "tgoff…" function has been invoked in this evaluation: the "tg…" functions are non-cacheable from then on
     tg_off: bool,
-    counts: Vec<(&'static str, Value, usize)>,
+    counts: std::collections::HashMap<u64, Vec<(&'static str, Value, usize)>>,
     /// every call site reached: (function, argument)
     pub calls: Vec<(String, Value)>,
     /// calls that must reach the function: (function, argument, outcome)
@@ -212,7 +217,7 @@ pub struct ModelHost<'a> {
 
 impl<'a> ModelHost<'a> {
     pub fn new(fns: &'a [FnDesc], symbols: &'a BTreeMap<String, Value>, plan: &'a FaultPlan) -> Self {
-        ModelHost { fns, symbols, plan, tg_off: false, cache: vec![], counts: vec![], calls: vec![], invocations: vec![], cache_hits: 0 }
+        ModelHost { fns, symbols, plan, tg_off: false, cache: Default::default(), counts: Default::default(), calls: vec![], invocations: vec![], cache_hits: 0 }
     }
 }
 
@@ -231,19 +236,21 @@ impl Host for ModelHost<'_> {
         if d.name.starts_with("tgoff") {
             self.tg_off = true;
         }
+        let b = bucket(d.name, arg);
         if cacheable {
-            if let Some((_, _, v)) = self.cache.iter().find(|(n, a, _)| *n == d.name && same(a, arg)) {
+            if let Some((_, _, v)) = self.cache.get(&b).and_then(|c| c.iter().find(|(n, a, _)| *n == d.name && same(a, arg))) {
                 self.cache_hits += 1;
                 return CallRes::Ok(v.clone());
             }
         }
-        let j = match self.counts.iter_mut().find(|(n, a, _)| *n == d.name && same(a, arg)) {
+        let slot = self.counts.entry(b).or_default();
+        let j = match slot.iter_mut().find(|(n, a, _)| *n == d.name && same(a, arg)) {
             Some(c) => {
                 c.2 += 1;
                 c.2 - 1
             }
             None => {
-                self.counts.push((d.name, arg.clone(), 1));
+                slot.push((d.name, arg.clone(), 1));
                 0
             }
         };
@@ -252,7 +259,7 @@ impl Host for ModelHost<'_> {
         match outcome {
             Ok(v) => {
                 if cacheable {
-                    self.cache.push((d.name, arg.clone(), v.clone()));
+                    self.cache.entry(b).or_default().push((d.name, arg.clone(), v.clone()));
                 }
                 CallRes::Ok(v)
             }
